@@ -323,7 +323,7 @@ def inputs_from_env(r, env, base=None):
     return vals
 
 
-def real_eval(case: Case, vals, linearize=True, prob_r=None, history=None):
+def real_eval(case: Case, vals, linearize=True, prob_r=None, history=None, history_linearize=True):
     """Fresh real problem at `vals`: outputs and analytic partials (check_partials J_fwd) + central FD.
     history: list of earlier points at which the model is run and linearised first (same live Problem)."""
     r = prob_r or CompRunner(case.factory(dict(case.cfg)), prerun=False)
@@ -336,7 +336,8 @@ def real_eval(case: Case, vals, linearize=True, prob_r=None, history=None):
             for n in r.in_names:
                 prob.set_val(r.path + "." + n, hv[n])
             prob.run_model()
-            prob.model.run_linearize()
+            if history_linearize:
+                prob.model.run_linearize()
         for n in r.in_names:
             prob.set_val(r.path + "." + n, vals[n])
         if r.implicit:
